@@ -23,7 +23,7 @@ pub fn gen_bytes(rng: &mut Rng, quick: bool) -> Vec<u8> {
     rng.bytes(len, utf8)
 }
 
-fn gen_read_script(rng: &mut Rng, len: usize, extreme: bool) -> Vec<RStep> {
+pub fn gen_read_script(rng: &mut Rng, len: usize, extreme: bool) -> Vec<RStep> {
     let l = len as i64;
     let mut s = vec![];
     for _ in 0..rng.range(1, 12) {
@@ -120,7 +120,7 @@ pub fn place_file(b: &Built, rng: &mut Rng, bytes: &[u8]) -> Result<(VfsPath, &'
     Ok((target, how))
 }
 
-fn cmp_results(handle: &[ScriptRes], reference: &[ScriptRes]) -> Option<usize> {
+pub fn cmp_results(handle: &[ScriptRes], reference: &[ScriptRes]) -> Option<usize> {
     for (i, (h, r)) in handle.iter().zip(reference.iter()).enumerate() {
         let same = match (h, r) {
             (ScriptRes::Err(_), ScriptRes::Err(_)) => true, // error kinds are not part of the contract
@@ -133,7 +133,7 @@ fn cmp_results(handle: &[ScriptRes], reference: &[ScriptRes]) -> Option<usize> {
     None
 }
 
-fn render_rs(s: &[ScriptRes]) -> String {
+pub fn render_rs(s: &[ScriptRes]) -> String {
     s.iter()
         .map(|x| match x {
             ScriptRes::N(n) => format!("{}", n),
